@@ -48,6 +48,10 @@ func c14Apply(w *c14World, e c14Ev) {
 		w.tUsed++
 	case "P:fwd", "P:rev", "P:create":
 		w.pUsed++
+		// bpf_ktime_get_ns is strictly increasing: two packets never stamp the same value (without the
+		// tick a re-created entry would be indistinguishable from the one that was judged - an artefact
+		// of a logical clock, not a behaviour of the system)
+		w.clock.now += time.Microsecond
 		var c *c14Conn
 		for _, x := range w.conns {
 			if x.Name == e.Arg {
